@@ -156,3 +156,61 @@ def run_blocks(loop: ast.For, names: dict[str, str], blocks=BLOCKS) -> dict[str,
         o = bi.block(loop.body, [BS(b)])
         out[b] = list(o.normal) + list(o.continues)
     return out
+
+
+def partition_summary(fn: ast.FunctionDef) -> dict[str, set[tuple[str, str, bool]]]:
+    """Which dicts of a cache builder are filled from which container entries, split on `value is an InitialAssignment`:
+    name -> {(container attribute, value attribute, is-assignment)}.  Understands dict comprehensions (also united with `|`)
+    and loops over `self.<container>.items()` that store under the entry's key (decided on the loop body's path summaries)."""
+    from .interp import Sym, SymInterp
+
+    out: dict[str, set[tuple[str, str, bool]]] = {}
+
+    def comp_entry(dc: ast.DictComp):
+        if len(dc.generators) != 1:
+            return None
+        g = dc.generators[0]
+        src = norm(g.iter)
+        if not (src.startswith("self._") and src.endswith(".items()") and isinstance(g.target, ast.Tuple) and len(g.target.elts) == 2 and len(g.ifs) == 1):
+            return None
+        k, v = norm(g.target.elts[0]), norm(g.target.elts[1])
+        t = g.ifs[0]
+        pol = True
+        while isinstance(t, ast.UnaryOp) and isinstance(t.op, ast.Not):
+            pol, t = not pol, t.operand
+        if not (isinstance(t, ast.Call) and norm(t.func) == "isinstance" and len(t.args) == 2 and norm(t.args[1]) == "InitialAssignment"):
+            return None
+        a0 = t.args[0]
+        wal = a0.target.id if isinstance(a0, ast.NamedExpr) else None
+        val = a0.value if isinstance(a0, ast.NamedExpr) else a0
+        if not (isinstance(val, ast.Attribute) and norm(val.value) == v and norm(dc.key) == k and norm(dc.value) in (wal, norm(val))):
+            return None
+        return src[len("self."):-len(".items()")], val.attr, pol
+
+    def flat(e):
+        if isinstance(e, ast.BinOp) and isinstance(e.op, ast.BitOr):
+            return flat(e.left) + flat(e.right)
+        return [e]
+
+    body = [s for s in fn.body if not (isinstance(s, ast.Expr) and isinstance(s.value, ast.Constant))]
+    for s in body:
+        if isinstance(s, ast.Assign) and isinstance(s.targets[0], ast.Name):
+            parts = flat(s.value)
+            ents = [comp_entry(p) for p in parts if isinstance(p, ast.DictComp)]
+            if ents and all(e is not None for e in ents) and len(ents) == len(parts):
+                out.setdefault(s.targets[0].id, set()).update(ents)
+        elif isinstance(s, ast.For) and norm(s.iter).startswith("self._") and norm(s.iter).endswith(".items()") and isinstance(s.target, ast.Tuple) and len(s.target.elts) == 2:
+            cont = norm(s.iter)[len("self."):-len(".items()")]
+            si = SymInterp()
+            st0 = si.assign(s.target, si.item(s.iter, 0, Sym()), Sym())
+            o = si.block(s.body, [st0])
+            K, V = f"KEY(0, self.{cont})", f"VALUE(0, self.{cont})"
+            for st in list(o.normal) + list(o.continues):
+                for e in st.events:
+                    if e[0] != "store" or not e[1].endswith(f"[{K}]") or not e[2].startswith(V + "."):
+                        continue
+                    attr = e[2][len(V) + 1:]
+                    pol = [p_ for c, p_ in st.conds if c == f"isinstance({V}.{attr}, InitialAssignment)"]
+                    if pol and attr.isidentifier():
+                        out.setdefault(e[1][: -len(f"[{K}]")], set()).add((cont, attr, pol[-1]))
+    return out
